@@ -131,7 +131,7 @@ def run_instance(args):
 
 
 def run(chk):
-    ninst = 40 if chk.thorough() else 7
+    ninst = 40 if chk.thorough() else 5
     nvar = 6 if chk.thorough() else 3
     insts = [make_instance(chk.rng) for _ in range(ninst)]
     ctx = mp.get_context("fork")
